@@ -2,8 +2,8 @@
    Theorem / exact / Print Assumptions only; proofs in Proofs.FingerprintProofs, model in Model.Fingerprint,
    hash model in Model.PyHash. *)
 From Coq Require Import ZArith List Bool Permutation.
-From Model Require Import PyBase Graph PyHash Fingerprint.
-From Proofs Require Import FingerprintProofs.
+From Model Require Import PyBase Graph PyHash Fingerprint FingerprintCGR.
+From Proofs Require Import FingerprintProofs FingerprintCGRProofs.
 Import ListNotations.
 Open Scope Z_scope.
 
@@ -289,3 +289,144 @@ Theorem C17_example_reordered :
     [(1, 6744783386241714987); (2, -713217080876991613); (3, 6744783386241714987); (4, -5079278463555148377)].
 Proof. exact example_reordered. Qed.
 Print Assumptions C17_example_reordered.
+
+(* ==================================================================================================== *)
+(* EXTENSION 1: FingerprintsCGR.  Model.FingerprintCGR: the shared fingerprint methods run on the skeleton of the CGR
+   (bond "order" = int(DynamicBond) = hash((order or 0, p_order or 0))) with the CGR identifier dictionary
+   hash((isotope or 0, atomic_number, charge, p_charge, is_radical, p_is_radical)). *)
+
+(* the theorems for an ARBITRARY identifier dictionary idd (molecules and CGRs are instances) *)
+Theorem C17_linear_hashes_with_rename : forall (s : Z -> Z), (forall x y, s x = s y -> x = y) ->
+  forall (h : list Z -> Z) idd g lo hi nbp, wf_mol g = true ->
+  forall x, In x (linear_hashes h nbp (fragments_with (ren s idd) (rename_mol s g) lo hi)) <->
+            In x (linear_hashes h nbp (fragments_with idd g lo hi)).
+Proof. exact linear_hashes_with_rename. Qed.
+Print Assumptions C17_linear_hashes_with_rename.
+
+Theorem C17_morgan_hash_dict_with_rename : forall (s : Z -> Z), (forall x y, s x = s y -> x = y) ->
+  forall (h : list Z -> Z) idd g lo hi,
+  morgan_hash_dict_with h (ren s idd) (rename_mol s g) lo hi =
+  match morgan_hash_dict_with h idd g lo hi with Ok ds => Ok (map (ren s) ds) | Err e => Err e end.
+Proof. exact morgan_hash_dict_with_rename. Qed.
+Print Assumptions C17_morgan_hash_dict_with_rename.
+
+Theorem C17_cgr_chains_exact : forall c lo hi p, wf_cgr c = true -> 1 <= lo <= hi ->
+  (In p (cgr_chains c lo hi) <-> simple_path (cgr_skeleton c) p /\ lo <= len_z p <= hi /\ canonical_dir p)
+  /\ NoDup (cgr_chains c lo hi).
+Proof. exact cgr_chains_exact. Qed.
+Print Assumptions C17_cgr_chains_exact.
+
+Theorem C17_cgr_linear_hash_list_exact : forall (h : list Z -> Z) c lo hi nbp ps, wf_cgr c = true -> 1 <= lo <= hi ->
+  NoDup ps -> (forall p, In p ps <-> simple_path (cgr_skeleton c) p /\ lo <= len_z p <= hi /\ canonical_dir p) ->
+  forall x, In x (cgr_linear_hash_list h c lo hi nbp) <->
+    exists k c0, x = h (k ++ [c0]) /\
+      0 <= c0 < Z.min (Z.of_nat (key_count (ident (cgr_atom_identifiers c)) (bond_order (cgr_skeleton c)) ps k)) (cap nbp).
+Proof. exact cgr_linear_hash_list_exact. Qed.
+Print Assumptions C17_cgr_linear_hash_list_exact.
+
+(* numbering *)
+Theorem C17_cgr_hash_sets_invariant : forall (s : Z -> Z), (forall x y, s x = s y -> x = y) ->
+  forall (h : list Z -> Z) c lo hi nbp, wf_cgr c = true ->
+  forall x, In x (cgr_linear_hash_list h (rename_cgr s c) lo hi nbp) <-> In x (cgr_linear_hash_list h c lo hi nbp).
+Proof. exact cgr_hash_sets_invariant. Qed.
+Print Assumptions C17_cgr_hash_sets_invariant.
+
+Theorem C17_cgr_fragment_counts_invariant : forall (s : Z -> Z), (forall x y, s x = s y -> x = y) ->
+  forall c lo hi k, wf_cgr c = true ->
+  length (fget (cgr_fragments (rename_cgr s c) lo hi) k) = length (fget (cgr_fragments c lo hi) k).
+Proof. exact cgr_fragment_counts_invariant. Qed.
+Print Assumptions C17_cgr_fragment_counts_invariant.
+
+Theorem C17_cgr_bit_sets_invariant : forall (s : Z -> Z), (forall x y, s x = s y -> x = y) ->
+  forall (h : list Z -> Z) c lo hi len nab nbp, wf_cgr c = true ->
+  match cgr_linear_bit_list h (rename_cgr s c) lo hi len nab nbp, cgr_linear_bit_list h c lo hi len nab nbp with
+  | Ok bits', Ok bits => forall b, In b bits' <-> In b bits
+  | Err e', Err e => e' = e
+  | _, _ => False
+  end.
+Proof. exact cgr_bit_sets_invariant. Qed.
+Print Assumptions C17_cgr_bit_sets_invariant.
+
+Theorem C17_cgr_morgan_hash_dict_rename : forall (s : Z -> Z), (forall x y, s x = s y -> x = y) ->
+  forall (h : list Z -> Z) c lo hi,
+  cgr_morgan_hash_dict h (rename_cgr s c) lo hi =
+  match cgr_morgan_hash_dict h c lo hi with Ok ds => Ok (map (ren s) ds) | Err e => Err e end.
+Proof. exact cgr_morgan_hash_dict_rename. Qed.
+Print Assumptions C17_cgr_morgan_hash_dict_rename.
+
+Theorem C17_cgr_morgan_hash_list_rename : forall (s : Z -> Z), (forall x y, s x = s y -> x = y) ->
+  forall (h : list Z -> Z) c lo hi, cgr_morgan_hash_list h (rename_cgr s c) lo hi = cgr_morgan_hash_list h c lo hi.
+Proof. exact cgr_morgan_hash_list_rename. Qed.
+Print Assumptions C17_cgr_morgan_hash_list_rename.
+
+Theorem C17_cgr_morgan_bit_list_rename : forall (s : Z -> Z), (forall x y, s x = s y -> x = y) ->
+  forall (h : list Z -> Z) c lo hi len nab,
+  cgr_morgan_bit_list h (rename_cgr s c) lo hi len nab = cgr_morgan_bit_list h c lo hi len nab.
+Proof. exact cgr_morgan_bit_list_rename. Qed.
+Print Assumptions C17_cgr_morgan_bit_list_rename.
+
+(* insertion order *)
+Theorem C17_cgr_linear_hash_list_reordered : forall c c', wf_cgr c = true -> wf_cgr c' = true -> cgr_reordered c c' ->
+  forall (h : list Z -> Z) lo hi nbp x,
+  In x (cgr_linear_hash_list h c lo hi nbp) <-> In x (cgr_linear_hash_list h c' lo hi nbp).
+Proof. exact cgr_linear_hash_list_reordered. Qed.
+Print Assumptions C17_cgr_linear_hash_list_reordered.
+
+Theorem C17_cgr_linear_bit_list_reordered : forall c c', wf_cgr c = true -> wf_cgr c' = true -> cgr_reordered c c' ->
+  forall (h : list Z -> Z) lo hi len nab nbp,
+  match cgr_linear_bit_list h c lo hi len nab nbp, cgr_linear_bit_list h c' lo hi len nab nbp with
+  | Ok bits, Ok bits' => forall b, In b bits <-> In b bits'
+  | Err e, Err e' => e = e'
+  | _, _ => False
+  end.
+Proof. exact cgr_linear_bit_list_reordered. Qed.
+Print Assumptions C17_cgr_linear_bit_list_reordered.
+
+Theorem C17_cgr_morgan_hash_list_reordered : forall c c', wf_cgr c = true -> cgr_reordered c c' ->
+  forall (h : list Z -> Z) lo hi,
+  match cgr_morgan_hash_list h c lo hi, cgr_morgan_hash_list h c' lo hi with
+  | Ok l, Ok l' => Permutation l l'
+  | Err e, Err e' => e = e'
+  | _, _ => False
+  end.
+Proof. exact cgr_morgan_hash_list_reordered. Qed.
+Print Assumptions C17_cgr_morgan_hash_list_reordered.
+
+Theorem C17_cgr_morgan_bit_list_reordered : forall c c', wf_cgr c = true -> cgr_reordered c c' ->
+  forall (h : list Z -> Z) lo hi len nab,
+  match cgr_morgan_bit_list h c lo hi len nab, cgr_morgan_bit_list h c' lo hi len nab with
+  | Ok bits, Ok bits' => Permutation bits bits'
+  | Err e, Err e' => e = e'
+  | _, _ => False
+  end.
+Proof. exact cgr_morgan_bit_list_reordered. Qed.
+Print Assumptions C17_cgr_morgan_bit_list_reordered.
+
+(* Morgan semantics *)
+Theorem C17_cgr_morgan_hash_dict_levels : forall (h : list Z -> Z) c lo hi,
+  cgr_morgan_hash_dict h c lo hi =
+    if (lo <? 1) || (hi <? lo) then Err OtherError
+    else Ok (map (cgr_morgan_level h c) (seq (Z.to_nat (lo - 1)) (Z.to_nat (hi - lo + 1)))).
+Proof. exact cgr_morgan_hash_dict_levels. Qed.
+Print Assumptions C17_cgr_morgan_hash_dict_levels.
+
+Theorem C17_cgr_morgan_level_value : forall (h : list Z -> Z) c r a, In a (keys (c_atoms c)) ->
+  ident (cgr_morgan_level h c (S r)) a =
+    h (ident (cgr_morgan_level h c r) a ::
+       flatten_pairs (sort_pairs (map (fun nb => (cbond_int (snd nb), ident (cgr_morgan_level h c r) (fst nb))) (cgr_nbrs c a)))).
+Proof. exact cgr_morgan_level_value. Qed.
+Print Assumptions C17_cgr_morgan_level_value.
+
+(* non-vacuity: the CGR acetic acid > acetate (values equal to chython's) and a reordered copy *)
+Theorem C17_example_cgr :
+  wf_cgr ex_cgr = true /\ wf_cgr ex_cgr2 = true /\ cgr_reordered ex_cgr ex_cgr2 /\
+  cgr_atom_identifiers ex_cgr =
+    [(1, -5731264841243058737); (2, -5731264841243058737); (3, 1166397159408131971); (4, 5478730751422717551)] /\
+  cbond_int (cb 1 1) = 8389048192121911274 /\ cbond_int (cb 2 2) = 1901736143494378007 /\
+  cgr_morgan_hash_dict hash_ztuple ex_cgr 2 2 =
+    Ok [[(1, 2134285870374715006); (2, 2365127763220417952); (3, -1335216503850562694); (4, -3774162219190633511)]] /\
+  set_z (cgr_linear_hash_list hash_ztuple (rename_cgr (fun x => 9 - x) ex_cgr) 1 3 2) =
+  set_z (cgr_linear_hash_list hash_ztuple ex_cgr 1 3 2) /\
+  hd 0 (set_z (cgr_linear_hash_list hash_ztuple ex_cgr 1 3 2)) = -7638454244423420739.
+Proof. exact example_cgr. Qed.
+Print Assumptions C17_example_cgr.
